@@ -62,6 +62,26 @@ def rebind_isolation():
     b = Application([('/b', inner)])
     c = Application([('/c', inner)], render_factory=fac('C'), resources={'r': 1})
     after = [(r.pattern, len(r.bound_apps), r.bound_apps[-1] is inner) for r in inner.routes]
+    # a route with its own middleware and resources: binding it (successfully or not) must not touch the application's lists
+    from clastic import Route
+    from clastic.middleware import Middleware
+
+    class RouteMW(Middleware):
+        def request(self, next):
+            return next()
+    host = Application([('/h', lambda: Response('h'))], resources={'r': 1})
+    mws0, res0 = list(host.middlewares), dict(host.resources)
+    host.add(Route('/with_mw', lambda: Response('m'), middlewares=[RouteMW()], resources={'extra': 2}))
+    try:
+        host.add(Route('/bad', lambda nobody_provides_this: Response('x'), middlewares=[RouteMW()]))
+        problems.append('unsatisfiable route accepted')
+    except NameError:
+        pass
+    if list(host.middlewares) != mws0 or dict(host.resources) != res0:
+        problems.append('binding a route changed the application: middlewares %r -> %r, resources %r -> %r'
+                        % (mws0, host.middlewares, res0, host.resources))
+    if [r.pattern for r in host.routes] != ['/h', '/with_mw']:
+        problems.append('routes after a failed add: %r' % [r.pattern for r in host.routes])
     if before != after:
         problems.append('embedding changed the embedded application\'s routes: %r -> %r' % (before, after))
     if inner.get_local_client().get('/hello').get_data() != body0:
